@@ -6,6 +6,7 @@ import (
 	"fmt"
 	"io"
 	"reflect"
+	"sort"
 	"time"
 
 	"github.com/parquet-go/parquet-go"
@@ -228,6 +229,8 @@ type Entry struct {
 	Deconstruct func(rows any) []parquet.Row
 	// Reconstruct rebuilds a T from a row through Schema.Reconstruct and returns its tree.
 	Reconstruct func(row parquet.Row) (ref.V, error)
+	// SortBuffer writes the rows into a GenericBuffer[T] in batches, sorts it and returns its rows.
+	SortBuffer func(rows any, batches []int, sorting []parquet.SortingColumn) ([]parquet.Row, error)
 	// OpenBufferReader fills a GenericBuffer[T] / RowBuffer[T] and reads it back through GenericReader[T].
 	OpenBufferReader func(kind string, rows any) (*Reader, error)
 	// ReadAll reads the file through GenericReader[T].Read with the batch size.
@@ -522,6 +525,43 @@ func register[T any](name string) {
 			Close:   r.Close,
 			NumRows: r.NumRows(),
 		}, nil
+	}
+	e.SortBuffer = func(rows any, batches []int, sorting []parquet.SortingColumn) ([]parquet.Row, error) {
+		rs := rows.([]T)
+		b := parquet.NewGenericBuffer[T](parquet.SortingRowGroupConfig(parquet.SortingColumns(sorting...)))
+		i := 0
+		for _, n := range append(append([]int{}, batches...), len(rs)) {
+			if i+n > len(rs) {
+				n = len(rs) - i
+			}
+			if n <= 0 {
+				continue
+			}
+			if _, err := b.Write(rs[i : i+n]); err != nil {
+				return nil, &WriteError{err}
+			}
+			i += n
+		}
+		sort.Sort(b)
+		r := b.Rows()
+		defer r.Close()
+		var out []parquet.Row
+		buf := make([]parquet.Row, 64)
+		for {
+			n, err := r.ReadRows(buf)
+			for _, row := range buf[:n] {
+				out = append(out, row.Clone())
+			}
+			if err != nil {
+				if err == io.EOF {
+					return out, nil
+				}
+				return out, err
+			}
+			if n == 0 {
+				return out, fmt.Errorf("no progress")
+			}
+		}
 	}
 	e.OpenBufferReader = func(kind string, rows any) (*Reader, error) {
 		rs := rows.([]T)
